@@ -1,5 +1,5 @@
 """shared body of the layout-family property modules (C01, C03, C05, C06, C10, C11)"""
-from .. import layout, heap, common
+from .. import layout, heap, refgraph, common
 
 _cache = {}
 
@@ -18,7 +18,17 @@ def _run(tier, seed, refs):
     return _cache[key]
 
 
-def make(prop, prefixes, rule, assumptions, partial):
+def _rg(tier, seed):
+    key = ("rg", tier, seed)
+    if key not in _cache:
+        _cache[key] = refgraph.run_all(tier, seed)
+    return _cache[key]
+
+
+_EMPTY = {"failures": [], "mismatches": [], "lines": 0, "distinct": 0, "tags": {}, "cases": 0}
+
+
+def make(prop, prefixes, rule, assumptions, partial, rg=False):
     def mine(fs):
         return [f for f in fs if f.key.startswith(prefixes)]
 
@@ -29,12 +39,14 @@ def make(prop, prefixes, rule, assumptions, partial):
         tags = {("noref." + k): v for k, v in a["tags"].items()}
         tags.update({("refs." + k): v for k, v in b["tags"].items()})
         tags.update({("heap." + k): v for k, v in hp["tags"].items()})
+        g = _rg(tier, seed) if rg else _EMPTY      # node histories: the tie of the reference-graph proof model (C10_node_update)
+        tags.update({("rg." + k): v for k, v in g["tags"].items()})
         return {
-            "failures": mine(a["failures"]) + mine(b["failures"]) + mine(hp["failures"]),
-            "mismatches": a["mismatches"] + b["mismatches"] + hp["mismatches"],
-            "evaluations": a["lines"] + b["lines"] + hp["lines"],
-            "distinct_nontrivial": a["distinct"] + b["distinct"] + hp["distinct"],
-            "traces": a["lines"] + b["lines"] + hp["lines"],
+            "failures": mine(a["failures"]) + mine(b["failures"]) + mine(hp["failures"]) + mine(g["failures"]),
+            "mismatches": a["mismatches"] + b["mismatches"] + hp["mismatches"] + g["mismatches"],
+            "evaluations": a["lines"] + b["lines"] + hp["lines"] + g["lines"],
+            "distinct_nontrivial": a["distinct"] + b["distinct"] + hp["distinct"] + g["distinct"],
+            "traces": a["lines"] + b["lines"] + hp["lines"] + g["lines"],
             "rule": "random types of the whole grammar (depth 1-3; structs with 0-4 static/dynamic fields; arrays of 1-3 dims, static/"
                     "dynamic/zero-length dims, any axis order, scalar/string/struct/array/Ref/UnionRef items; a reference-free and a "
                     "reference-bearing stream) x values (integer extremes, inf, -0.0, multi-byte UTF-8, empty strings/arrays, string "
@@ -48,7 +60,8 @@ def make(prop, prefixes, rule, assumptions, partial):
             "samples": a["samples"][:3] + b["samples"][:3],
             "tags": tags,
             "correspondence": {"lay": {"lines": a["lines"] + b["lines"], "mismatches": len(a["mismatches"]) + len(b["mismatches"]),
-                                       "type_histogram": {"noref": a["hist"], "refs": b["hist"]}}},
+                                       "type_histogram": {"noref": a["hist"], "refs": b["hist"]}},
+                               **({"rg": {"cases": g["cases"], "lines": g["lines"], "mismatches": len(g["mismatches"])}} if rg else {})},
             "assumptions": ["text values do not end in NUL (the format is NUL-terminated; Python's rstrip would drop it)",
                             "N-D values with a zero-length dimension are given as ndarrays (nested lists cannot express their shape)",
                             "every stored word is below 2^63 (objects smaller than 2^63 bytes)"] + assumptions,
@@ -61,11 +74,25 @@ def make(prop, prefixes, rule, assumptions, partial):
             for refs in (False, True):
                 out.extend(mine(layout.run_all("quick", seed + 4000 + s, refs=refs, n=700)["failures"]))
             out.extend(mine(heap.run_all("quick", seed + 4000 + s, n=700)["failures"]))
+            if rg:
+                out.extend(mine(refgraph.run_all("quick", seed + 4000 + s, n=600)["failures"]))
             if out:
                 break
         return out
 
     def replay(rep):
+        f = rep.get("failure") or (rep.get("mismatches") or [{}])[0]
+        if (f.get("replay") or {}).get("component") == "rg":
+            fails, mism = refgraph.replay(f["replay"])
+            for x in fails[:5]:
+                print("oracle:", x.key, x.what[:300])
+            for l, e, g_ in mism[:3]:
+                print(f"tie: `{l}` impl `{e[:160]}` model `{g_[:160]}`")
+            if mine(fails):
+                print(f"VIOLATION property={prop} replay=(replayed)")
+                return 1
+            print("replay: property holds on this input" + (" (model and code still differ)" if mism else ""))
+            return 0
         out = []
         for refs in (False, True):
             out.extend(mine(layout.run_all(rep.get("tier", "quick"), rep.get("seed", 0), refs=refs)["failures"]))
